@@ -44,14 +44,14 @@ func checkC20() fw.Check {
 	return fw.Check{
 		Prop:  "C20",
 		Level: "exploration",
-		Rule: "one case = RunTraceroute(protocol tcp) with (method in {syn,sack,prefer_sack}) x (target capability in {SACK ok, SACK ok with timestamps, SACK ok while a firewall rejects one probe segment with destination-unreachable, SACK ok with an ECN-setup SYN-ACK (ECE set) behind the enforced capture filters, SACK ok with an initial sequence number just below 2^32, SYN-ACK without SACK-permitted, ACKs without SACK blocks, port closed (real RST: dial refused), handshake never shown to the capture handle}) x (non-capability failure injected into the SACK attempt at the factory / 1st filter / 2nd filter / k-th send / k-th read / every read from 45 ms after the destination's first selective acknowledgement, wrapped by the production code at its real depth) x (0..2 end-to-end probes); the target is a real listener in the peer namespace plus a simulated SYN-ACK/ACK stream; observations: probe kind of every packet on the wire per handle, accept count of the listener, error chain, result; oracle = decision table of the statement. " +
+		Rule: "one case = RunTraceroute(protocol tcp) with (method in {syn,sack,prefer_sack}) x (target capability in {SACK ok, SACK ok with timestamps (Linux option order and the BSD order in which timestamps precede SACK-permitted), SACK ok while a firewall rejects one probe segment with destination-unreachable, SACK ok with an ECN-setup SYN-ACK (ECE set) behind the enforced capture filters, SACK ok with an initial sequence number just below 2^32, SYN-ACK without SACK-permitted, ACKs without SACK blocks, port closed (real RST: dial refused), handshake never shown to the capture handle}) x (non-capability failure injected into the SACK attempt at the factory / 1st filter / 2nd filter / k-th send / k-th read / every read from 45 ms after the destination's first selective acknowledgement, wrapped by the production code at its real depth) x (0..2 end-to-end probes); the target is a real listener in the peer namespace plus a simulated SYN-ACK/ACK stream; observations: probe kind of every packet on the wire per handle, accept count of the listener, error chain, result; oracle = decision table of the statement. " +
 			"distinct_nontrivial counts distinct (method, capability, fault, e2e>0, outcome) tuples executed",
 		Workers:       8,
 		MinNontrivial: 40,
 		Assumptions:   []string{"faults are combined only with a SACK-capable target, where the expected outcome is unambiguous", "Linux build"},
 		Gen: func(tier string, seed int64) []fw.Case {
 			var reqs []c20Req
-			caps := []string{"sack-ok", "sack-ok-ecn", "sack-ok-unreach", "sack-ok-ts", "sack-ok-chatter", "sack-ok-slow-synack", "sack-ok-isn-wrap", "sack-ok-timeout0", "no-sackperm", "no-blocks", "closed", "no-handshake"}
+			caps := []string{"sack-ok", "sack-ok-ecn", "sack-ok-unreach", "sack-ok-ts", "sack-ok-ts-bsd-order", "sack-ok-chatter", "sack-ok-slow-synack", "sack-ok-isn-wrap", "sack-ok-timeout0", "no-sackperm", "no-blocks", "closed", "no-handshake"}
 			faults := []string{"factory", "filter1", "filter2", "send1", "send3", "read2", "read9", "read-late", "read-after-dest"}
 			for _, m := range []string{"syn", "sack", "prefer_sack"} {
 				for _, cp := range caps {
@@ -152,7 +152,8 @@ func runC20(c *fw.Ctx, id string, rq c20Req) {
 	defer env.close()
 	if env.peer != nil {
 		env.peer.SackPerm = rq.cap != "no-sackperm"
-		env.peer.TS = rq.cap == "sack-ok-ts" || rq.cap == "sack-ok-chatter"
+		env.peer.TS = rq.cap == "sack-ok-ts" || rq.cap == "sack-ok-chatter" || rq.cap == "sack-ok-ts-bsd-order"
+		env.peer.BSDOptionOrder = rq.cap == "sack-ok-ts-bsd-order"
 		env.peer.TSVal, env.peer.TSEcr = 1000, 2000
 		env.peer.ShowSynAck = rq.cap != "no-handshake"
 		if rq.cap == "sack-ok-ecn" {
